@@ -376,6 +376,9 @@ def _support(ctx, N):
         ctx.ob("R-SUPPORT", f"{pkg}: get_support(indices, ordered) returns selected_idx_", r.term == sel.term, f"{r.term!r}", ctx.site(P.method(base, "get_support")), pkg)
         r = ctx.call_method(I, st, o, "get_support", indices=True)
         ctx.ob("R-SUPPORT", f"{pkg}: get_support(indices) is sorted(selected_idx_)", N.nf(r.term) == N.nf(T("sorted", sel.term)), f"{r.term!r}", ctx.site(P.method(base, "get_support")), pkg)
+        # the readers leave the fitted state as it is (the selection order in particular)
+        after_sel, after_sup = ctx.attr(st, o, "selected_idx_"), ctx.attr(st, o, "support_")
+        ctx.ob("R-SUPPORT", f"{pkg}: get_support leaves selected_idx_ and support_ untouched", after_sel is not None and after_sel.term == sel.term and after_sup is not None and after_sup.term == sup.term, f"selected_idx_ = {None if after_sel is None else repr(after_sel.term)[:80]}; support_ = {None if after_sup is None else repr(after_sup.term)[:80]}", ctx.site(P.method(base, "get_support")), pkg)
     # transform (feature selection): columns of the mask
     I, st = ctx.interp(), State()
     sup = arr("support", "M", inp=False, dtype="bool")
